@@ -70,37 +70,37 @@ def angeps : F64 := .fin false 1 (-46)    -- ldexp(1, -(53 - 7))
 
 def ftile : F64 := F64.ofInt tile
 
+/-- one coordinate against its half-open tile range `[mn, mx)`: exactly on the excluded upper end it is moved inside by `eps` -/
+def clampTile (what : Err) (i mn mx : Int) (v : F64) : Except Err F64 :=
+  if i ≥ mn ∧ i < mx then .ok v
+  else if i = mx ∧ F64.eq v (F64.ofInt (mx * tile)) then .ok (v - eps)
+  else .error what
+
+/-- the UTM northing and hemisphere folded to the hemisphere the point lies in (`iy` = row of the unfolded northing) -/
+def foldNorthing (northp : Bool) (iy : Int) (y : F64) : Bool × F64 :=
+  if northp ∧ iy < mgrs_minutmNrow then
+    let y' := y + F64.ofInt mgrs_utmNshift
+    -- a tiny negative northing rounds up to the equator: keep it on the last southern row (fix d94b3ac)
+    (false, if F64.eq y' (F64.ofInt (mgrs_maxutmSrow * tile)) then y' - eps else y')
+  else if !northp ∧ iy ≥ mgrs_maxutmSrow then
+    -- on the equator retain the S hemisphere
+    if F64.eq y (F64.ofInt (mgrs_maxutmSrow * tile)) then (false, y - eps) else (true, y - F64.ofInt mgrs_utmNshift)
+  else (northp, y)
+
 def checkCoords (utmp northp : Bool) (x y : F64) : Except Err Coords := do
   let imax : F64 := F64.ofInt 2147483647
   if !(F64.lt (F64.abs x) imax && F64.lt (F64.abs y) imax) then throw "not in MGRS range (infinite or huge)"
   let ix := UTMUPS.fl (x / ftile)
   let iy := UTMUPS.fl (y / ftile)
   let i := UTMUPS.ind utmp northp
-  let mnE := mgrs_tbl_mineasting.getD i 0
-  let mxE := mgrs_tbl_maxeasting.getD i 0
-  let mnN := mgrs_tbl_minnorthing.getD i 0
-  let mxN := mgrs_tbl_maxnorthing.getD i 0
-  let mut x := x
-  let mut y := y
-  let mut northp := northp
   -- `y / tile_` underflows to −0 for a tiny negative `y`, which then passes as row 0: the code sets `y = 0` (fix 5b59a93)
-  if F64.lt y 0 && iy == 0 then y := 0
-  if !(ix ≥ mnE ∧ ix < mxE) then
-    if ix = mxE ∧ F64.eq x (F64.ofInt (mxE * tile)) then x := x - eps
-    else throw "easting out of range"
-  if !(iy ≥ mnN ∧ iy < mxN) then
-    if iy = mxN ∧ F64.eq y (F64.ofInt (mxN * tile)) then y := y - eps
-    else throw "northing out of range"
+  let y0 : F64 := if F64.lt y 0 && iy == 0 then 0 else y
+  let x1 ← clampTile "easting out of range" ix (mgrs_tbl_mineasting.getD i 0) (mgrs_tbl_maxeasting.getD i 0) x
+  let y1 ← clampTile "northing out of range" iy (mgrs_tbl_minnorthing.getD i 0) (mgrs_tbl_maxnorthing.getD i 0) y0
   if utmp then
-    if northp ∧ iy < mgrs_minutmNrow then
-      northp := false
-      y := y + F64.ofInt mgrs_utmNshift
-    else if !northp ∧ iy ≥ mgrs_maxutmSrow then
-      if F64.eq y (F64.ofInt (mgrs_maxutmSrow * tile)) then y := y - eps
-      else
-        northp := true
-        y := y - F64.ofInt mgrs_utmNshift
-  pure ⟨northp, x, y⟩
+    let (n, y2) := foldNorthing northp iy y1
+    pure ⟨n, x1, y2⟩
+  else pure ⟨northp, x1, y1⟩
 
 /-! ## Forward -/
 
@@ -263,5 +263,50 @@ def reverse (s : List Nat) (centerp : Bool) : Except Err Rev := do
   | .cell d =>
     -- `(tile_ * x1) / unit` in `real`: the product exceeds 2^53 at the finest precisions and rounds
     pure ⟨d.zone, d.northp, (ftile * F64.ofInt d.x1) / F64.ofInt d.unit, (ftile * F64.ofInt d.y1) / F64.ofInt d.unit, d.prec⟩
+
+
+/-! ## `MGRS::Decode` — the public splitter
+
+`find_first_not_of(digits_)` / `find_first_of(alpha_)` test plain membership of the byte in the C string (no case folding;
+`alpha_` lists both cases and leaves out I and O; a NUL byte is in neither set). -/
+
+def alpha : List Char := mgrs_alphaS.toList
+
+def inSet (t : List Char) (c : Nat) : Bool := t.any fun ch => ch.toNat == c
+
+structure Parts where
+  gridzone : List Nat
+  block : List Nat
+  easting : List Nat
+  northing : List Nat
+deriving DecidableEq, Repr
+
+/-- `MGRS::Decode`.  `d` = the leading digits (`[0, p0)`), `a` = the byte at `p0`, `al` = the further letters (`[p0 + 1, p1)`), `t` = the rest (`[p1, n)`) -/
+def decode (s : List Nat) : Except Err Parts :=
+  if s.length ≥ 3 && (s.take 3).map upper == [73, 78, 86] then .ok ⟨s.take 3, [], [], []⟩
+  else
+    let d := s.takeWhile (inSet digits)
+    match s.dropWhile (inSet digits) with
+    | [] => .error "ref does not contain alpha chars"
+    | a :: r =>
+      if !(d.length ≤ 2) then .error "ref does not start with 0-2 digits"
+      else if !(inSet alpha a) then .error "ref contains non alphanumeric chars"
+      else
+        let al := r.takeWhile (inSet alpha)
+        let t := r.dropWhile (inSet alpha)
+        if !(al.length = 0 ∨ al.length = 2) then .error "ref must contain 1 or 3 alpha chars"
+        else if al.length = 0 ∧ t ≠ [] then .error "ref contains junk after 1 alpha char"
+        else if !(t.all (inSet digits)) then .error "ref contains junk at end"
+        else if t.length % 2 = 1 then .error "ref must end with even no of digits"
+        else .ok ⟨d ++ [a], al, t.take (t.length / 2), t.drop (t.length / 2)⟩
+
+/-! ## GeoCoords::MGRSRepresentation / AltMGRSRepresentation -/
+
+/-- `prec = max(-1, min(6, prec) + 5)` -/
+def repPrec (prec : Int) : Int := max (-1) (min 6 prec + 5)
+
+/-- `MGRS::Forward(zone, _northp, easting, northing, _lat, prec', mgrs)` on the fields of the object -/
+def mgrsRepresentation (zone : Int) (northp : Bool) (x y lat : F64) (prec : Int) : Except Err (List Char) :=
+  forwardLat zone northp x y lat (repPrec prec)
 
 end GeoVerif.MGRS
